@@ -4,7 +4,7 @@
    proofs are in Proofs/EvalTotal.v, ExecProofs.v, IncludeProofs.v, EvalGen.v. *)
 From Coq Require Import List NArith ZArith Bool.
 From Falco Require Import Base.Res Base.Bytes Gen.EvalConst Model.Float Model.Acl Model.Val Model.Assign Model.Oper
-  Model.AssignOld Model.Exec Model.CallTree Model.EvalInclude Proofs.EvalTotal Proofs.CallTreeProofs Proofs.ExecProofs Proofs.IncludeProofs Proofs.EvalGen.
+  Model.AssignOld Model.Exec Model.CallTree Model.Builtins Model.EvalInclude Proofs.EvalTotal Proofs.CallTreeProofs Proofs.BuiltinProofs Proofs.ExecProofs Proofs.IncludeProofs Proofs.EvalGen.
 Import ListNotations.
 
 (* ---------------------------------------------------------------- operators: a value or an error, for ALL operands *)
@@ -108,6 +108,32 @@ Proof. exact mutual_include_err. Qed.
 Theorem C08_include_old_refuted : forall fuel, resolve_old fuel [[IInclude 0]] [IInclude 0] = OutOfFuel.
 Proof. exact resolve_old_diverges. Qed.
 
+(* ---------------------------------------------------------------- built-ins driven by a count argument *)
+
+(* std.strrep: for every count (negative, huge) a value or an error; a value has max(count,0) * |s| bytes and never
+   exceeds the request workspace *)
+Theorem C08_strrep_bound : forall limit s count r, (0 <= limit)%Z ->
+  strrep limit s count = OK r -> (zlen r <= limit /\ zlen r = Z.max count 0 * zlen s)%Z.
+Proof. exact strrep_bound. Qed.
+
+Theorem C08_strrep_total : forall limit s count, strrep limit s count <> Crash /\ strrep limit s count <> OutOfFuel.
+Proof. exact strrep_total. Qed.
+
+(* std.strpad: the string itself, or exactly |width| bytes within the workspace *)
+Theorem C08_strpad_bound : forall limit s width pad r, (0 <= limit)%Z ->
+  strpad limit s width pad = OK r ->
+  r = s \/ (zlen r = f_to_int (f_of_int (Z.abs width)) /\ zlen r <= limit)%Z.
+Proof. exact strpad_bound. Qed.
+
+Theorem C08_randomstr_bound : forall limit pick n chars r,
+  randomstr limit pick n chars = OK (Some r) -> (zlen r = Z.max n 0 /\ (0 <= n -> n <= limit))%Z.
+Proof. exact randomstr_bound. Qed.
+
+(* KNOWN FINDING: std.replaceall with an empty target has no bound - the output is the product of the sizes *)
+Theorem C08_replaceall_unbounded_refuted : forall limit : nat, exists r s : str,
+  (length r <= S limit /\ length s <= S limit /\ limit < length (interleave r s))%nat.
+Proof. exact replaceall_unbounded_refuted. Qed.
+
 Print Assumptions C08_ops_total.
 Print Assumptions C08_local_set_total.
 Print Assumptions C08_oper_total.
@@ -126,3 +152,8 @@ Print Assumptions C08_include_total.
 Print Assumptions C08_self_include_err.
 Print Assumptions C08_mutual_include_err.
 Print Assumptions C08_include_old_refuted.
+Print Assumptions C08_strrep_bound.
+Print Assumptions C08_strrep_total.
+Print Assumptions C08_strpad_bound.
+Print Assumptions C08_randomstr_bound.
+Print Assumptions C08_replaceall_unbounded_refuted.
